@@ -1,9 +1,60 @@
 package common
 
-import "encoding/json"
+import (
+	"bytes"
+	"encoding/json"
+	"math/big"
+)
 
 type RunQuery struct {
 	Params json.RawMessage `json:"params,omitempty"`
 	Vars   map[string]any  `json:"vars,omitempty"`
 	Cursor *string         `json:"cursor,omitempty"`
+}
+
+// UnmarshalJSON decodes the variables like encoding/json does (numbers as float64), except for
+// integers a float64 cannot hold exactly (beyond 2^53): those are kept as json.Number, which the
+// template resolution understands, instead of silently becoming another integer.
+func (q *RunQuery) UnmarshalJSON(data []byte) error {
+	type aux RunQuery
+	x := aux{}
+	dec := json.NewDecoder(bytes.NewReader(data))
+	dec.UseNumber()
+	if err := dec.Decode(&x); err != nil {
+		return err
+	}
+	for name, value := range x.Vars {
+		x.Vars[name] = relaxNumbers(value)
+	}
+	*q = RunQuery(x)
+	return nil
+}
+
+func relaxNumbers(value any) any {
+	switch v := value.(type) {
+	case json.Number:
+		if i, ok := new(big.Int).SetString(v.String(), 10); ok {
+			f, _ := new(big.Float).SetInt(i).Float64()
+			if back, acc := big.NewFloat(f).Int(nil); acc == big.Exact && back.Cmp(i) == 0 {
+				return f
+			}
+			return v
+		}
+		if f, err := v.Float64(); err == nil {
+			return f
+		}
+		return v
+	case []any:
+		for i := range v {
+			v[i] = relaxNumbers(v[i])
+		}
+		return v
+	case map[string]any:
+		for k := range v {
+			v[k] = relaxNumbers(v[k])
+		}
+		return v
+	default:
+		return value
+	}
 }
